@@ -184,6 +184,7 @@ FaultResult apply_token_fault(const std::string& text, const std::vector<Token>&
         r.applied = true;
         // in declaring blocks the identifier may be the declared name or a type name; no guarantee there
         r.guaranteed_error = !decl_like && !binder;
+        r.type_position = ti > 0 && tok(ti - 1) == ":";
         break;
     }
     case TF_DROP_OPERAND: {
@@ -649,6 +650,136 @@ static std::string apply_random_token_fault_xml_unchecked(const std::string& x, 
     std::string nt = apply_random_token_fault_text(text, rng, d);
     desc = "token " + d + " in <" + e->name + "> at " + std::to_string(e->begin);
     return x.substr(0, e->open_end) + xml_escape(nt, 0) + x.substr(close);
+}
+
+
+// ---------------------------------------------------------------------------------------------
+// model-level faults
+// ---------------------------------------------------------------------------------------------
+const char* model_fault_name(int f)
+{
+    static const char* n[] = {"dup-location-name", "drop-argument",  "extra-argument",   "unknown-template", "dup-template-name", "system-no-semicolon",
+                              "dup-process",       "dup-declaration", "dup-parameter",   "foreign-target",   "init-is-branchpoint", "unknown-process"};
+    return f >= 0 && f < MF_COUNT ? n[f] : "?";
+}
+
+bool apply_model_fault(Model& m, int fault, Rng& rng)
+{
+    auto pick_templ = [&](auto pred) -> MTempl* {
+        std::vector<MTempl*> c;
+        for (auto& t : m.templs)
+            if (pred(t))
+                c.push_back(&t);
+        return c.empty() ? nullptr : c[rng.below((uint32_t)c.size())];
+    };
+    switch (fault) {
+    case MF_DUP_LOC_NAME: {
+        MTempl* t = pick_templ([](const MTempl& x) { return x.locs.size() >= 2; });
+        if (!t)
+            return false;
+        size_t a = rng.below((uint32_t)t->locs.size()), b = rng.below((uint32_t)t->locs.size());
+        if (a == b)
+            b = (a + 1) % t->locs.size();
+        // sometimes the duplicate is the last location of the template
+        if (rng.chance(0.5))
+            b = t->locs.size() - 1, a = b == a ? 0 : a;
+        t->locs[b].name = t->locs[a].name.empty() ? "_" + t->locs[a].id : t->locs[a].name;
+        return true;
+    }
+    case MF_DROP_ARG:
+    case MF_EXTRA_ARG: {
+        std::vector<MInst*> c;
+        for (auto& i : m.insts)
+            if (fault == MF_EXTRA_ARG || !i.args.empty())
+                c.push_back(&i);
+        if (c.empty())
+            return false;
+        MInst* i = c[rng.below((uint32_t)c.size())];
+        if (fault == MF_DROP_ARG)
+            i->args.erase(i->args.begin() + rng.below((uint32_t)i->args.size()));
+        else {
+            MArg a;
+            a.text = "1";
+            i->args.push_back(a);
+        }
+        return true;
+    }
+    case MF_UNKNOWN_TEMPLATE: {
+        if (m.insts.empty())
+            return false;
+        MInst& i = m.insts[rng.below((uint32_t)m.insts.size())];
+        (i.base.empty() ? i.templ : i.base) = rng.chance(0.5) ? "NoSuchTemplate" : "gi0";
+        return true;
+    }
+    case MF_DUP_TEMPLATE_NAME: {
+        if (m.templs.size() < 2)
+            return false;
+        size_t b = 1 + rng.below((uint32_t)m.templs.size() - 1);
+        m.templs[b].name = m.templs[rng.below((uint32_t)b)].name;
+        return true;
+    }
+    case MF_SYSTEM_NO_SEMI: {
+        std::string s = get_block_text(m, BlockRef{BlockRef::SYSTEM, -1, -1, "/nta/system"});
+        size_t e = s.find_last_of(';');
+        if (e == std::string::npos)
+            return false;
+        m.system_raw = s.substr(0, e);
+        return true;
+    }
+    case MF_DUP_PROCESS:
+        if (m.system.empty())
+            return false;
+        m.system.push_back(m.system[rng.below((uint32_t)m.system.size())]);
+        m.prio_lt.push_back(false);
+        return true;
+    case MF_UNKNOWN_PROCESS:
+        m.system.push_back(rng.chance(0.5) ? "NoSuchProcess" : "gi0");
+        m.prio_lt.push_back(false);
+        return true;
+    case MF_DUP_DECL: {
+        auto& d = rng.chance(0.6) || m.templs.empty() ? m.gdecls : m.templs[rng.below((uint32_t)m.templs.size())].decls;
+        if (d.empty())
+            return false;
+        d.insert(d.begin() + rng.below((uint32_t)d.size() + 1), d[rng.below((uint32_t)d.size())]);
+        return true;
+    }
+    case MF_DUP_PARAM: {
+        MTempl* t = pick_templ([](const MTempl& x) { return x.params.size() >= 2; });
+        if (!t)
+            return false;
+        MParam& p = t->params.back();
+        const std::string& other = t->params.front().name;
+        size_t at = p.text.rfind(p.name);
+        if (at == std::string::npos)
+            return false;
+        p.text = p.text.substr(0, at) + other + p.text.substr(at + p.name.size());
+        p.name = other;
+        return true;
+    }
+    case MF_FOREIGN_TARGET: {
+        if (m.templs.size() < 2)
+            return false;
+        MTempl* t = pick_templ([](const MTempl& x) { return !x.edges.empty(); });
+        if (!t)
+            return false;
+        const MTempl* o = nullptr;
+        for (auto& x : m.templs)
+            if (&x != t && !x.locs.empty())
+                o = &x;
+        if (!o)
+            return false;
+        t->edges[rng.below((uint32_t)t->edges.size())].dst_id_override = o->locs[rng.below((uint32_t)o->locs.size())].id;
+        return true;
+    }
+    case MF_INIT_IS_BRANCHPOINT: {
+        MTempl* t = pick_templ([](const MTempl& x) { return !x.bps.empty(); });
+        if (!t)
+            return false;
+        t->init_override = t->bps[0].id;
+        return true;
+    }
+    default: return false;
+    }
 }
 
 }  // namespace sim
